@@ -320,9 +320,16 @@ Fixpoint bind_params (ps : sig) (kw : list (str * value)) : res (list (str * val
       end
   end.
 
+(* _run_component calls component( **cfg ): every value travels by keyword, whatever the kind of the parameter *)
+Definition is_posonly (p : param) : bool := match p_kind p with PosOnly => true | _ => false end.
+Definition posonly_given (s : sig) (kw : list (str * value)) : bool :=
+  existsb (fun p => is_posonly p && match assoc (p_name p) kw with Some _ => true | None => false end) s.
+
 Definition py_call (s : sig) (kw : list (str * value)) : res (list (str * value)) :=
   if existsb (fun kv => negb (has_param (fst kv) s)) kw
   then Err ECrash              (* TypeError: unexpected keyword argument *)
+  else if posonly_given s kw
+  then Err ECrash              (* TypeError: got some positional-only arguments passed as keyword arguments *)
   else bind_params s kw.
 
 (* component( **cfg ) *)
@@ -542,14 +549,35 @@ Definition no_class_subcommand_param (cs : components) : bool :=
   | Dct kids => forallb (fun kc => guardA_comp (snd kc)) kids
   end.
 
-(* ---- the guard of the theorem about the present code = the finding class of the correspondence judge ----
-   B: no Optional parameter whose default is a string that YAML reads as null *)
+(* ---- the guard of the theorem about the present code = the finding classes of the correspondence judge ----
+   B: no Optional parameter whose default is a string that YAML reads as null (class 6);
+   P: no positional-only parameter (class 9): the call is component( **cfg ) *)
 Definition nullish_default (p : param) : bool :=
   match p_ty p, p_default p with
   | TOpt _, Some (VStr s) => nullish s
   | _, _ => false
   end.
-Definition sig_guard3 (s : sig) : bool := negb (existsb nullish_default s).
+Definition sig_nullish_free (s : sig) : bool := negb (existsb nullish_default s).
+Definition sig_posonly_free (s : sig) : bool := negb (existsb is_posonly s).
+Definition sig_guard3 (s : sig) : bool := sig_nullish_free s && sig_posonly_free s.
+
+Section Guard.
+  Variable sg : sig -> bool.
+  Fixpoint guard_comp_by (c : comp) : bool :=
+    match c with
+    | CFn _ s => sg s
+    | CCls _ i ms => sg i && forallb (fun ms => sg (snd ms)) ms
+    | CGrp kids => (fix go (l : list (str * comp)) : bool :=
+                      match l with [] => true | (_, c') :: l' => guard_comp_by c' && go l' end) kids
+    | CHelp => true
+    end.
+  Definition guard_by (cs : components) : bool :=
+    match cs with
+    | One c => guard_comp_by c
+    | Lst l => forallb guard_comp_by l
+    | Dct kids => forallb (fun kc => guard_comp_by (snd kc)) kids
+    end.
+End Guard.
 
 Fixpoint guardB_comp (c : comp) : bool :=
   match c with
@@ -560,9 +588,14 @@ Fixpoint guardB_comp (c : comp) : bool :=
   | CHelp => true
   end.
 
-Definition no_nullish_str_default (cs : components) : bool :=
+(* the guard of C12_binds_exactly: every signature of the program is free of both finding classes *)
+Definition in_guard (cs : components) : bool :=
   match cs with
   | One c => guardB_comp c
   | Lst l => forallb guardB_comp l
   | Dct kids => forallb (fun kc => guardB_comp (snd kc)) kids
   end.
+
+(* the two finding classes one by one (which of them a program outside the guard belongs to) *)
+Definition no_nullish_str_default (cs : components) : bool := guard_by sig_nullish_free cs.
+Definition no_positional_only (cs : components) : bool := guard_by sig_posonly_free cs.
